@@ -384,7 +384,8 @@ func assemble(t *testing.T, vc *verifChain, sc scenario, dir string, n int) []ma
 		case "crash", "stop":
 			lines = append(lines, early...)
 			early = nil
-			lines = append(lines, map[string]any{"ev": m["ev"]})
+			// idx/state: durable image heights when the driver captured them (snow-level family), -1 here
+			lines = append(lines, map[string]any{"ev": m["ev"], "idx": -1, "state": -1})
 		}
 	}
 	return lines
